@@ -5,6 +5,9 @@
 (* Input: a sequence of characters, each [c |-> class, n |-> encoded bytes].*)
 (*                                                                          *)
 (*   NL   '\n'          WS   space / tab      SEMI ';'     QUOTE '"'        *)
+(*   UWS  white space outside ASCII (U+00A0 2 bytes, U+3000 3 bytes):       *)
+(*        starts a WhiteSpace token and ends a word like WS, but a run of   *)
+(*        white space is only CONTINUED by ASCII blanks (lex_whitespace)    *)
 (*   HASH '#'           DIGIT '0'..'9'        DOT '.'      MINUS '-'        *)
 (*   ALPHA alphabetic (1, 2 or 3 bytes: a, é, 中)                           *)
 (*   OTHER anything else (1 byte '(' ... 4 bytes, e.g. an emoji): not a     *)
@@ -24,9 +27,9 @@ VARIABLES chars, ci, bpos, line, toks, lstatus
 lvars == <<chars, ci, bpos, line, toks, lstatus>>
 
 Cls(i) == chars[i].c
-IsSpace(i) == Cls(i) \in {"NL", "WS"}
+IsSpace(i) == Cls(i) \in {"NL", "WS", "UWS"}
 \* first index >= i whose class satisfies stop condition, or Len+1
-Classes == {"NL", "WS", "SEMI", "QUOTE", "HASH", "DIGIT", "DOT", "MINUS", "ALPHA", "OTHER"}
+Classes == {"NL", "WS", "UWS", "SEMI", "QUOTE", "HASH", "DIGIT", "DOT", "MINUS", "ALPHA", "OTHER"}
 RECURSIVE Scan(_, _)
 Scan(i, stop) == IF i > Len(chars) THEN i ELSE IF Cls(i) \in stop THEN i ELSE Scan(i + 1, stop)
 RECURSIVE Bytes(_, _)
@@ -40,7 +43,7 @@ Advance(j, tt, emit) ==
   /\ UNCHANGED <<chars, lstatus>>
 
 LexNewline == lstatus = "run" /\ ci <= Len(chars) /\ Cls(ci) = "NL" /\ Advance(ci + 1, "NewLine", FALSE) /\ line' = line + 1
-LexSpace   == lstatus = "run" /\ ci <= Len(chars) /\ Cls(ci) = "WS"
+LexSpace   == lstatus = "run" /\ ci <= Len(chars) /\ Cls(ci) \in {"WS", "UWS"}
               /\ Advance(Scan(ci + 1, Classes \ {"WS"}), "WhiteSpace", FALSE) /\ UNCHANGED line
 LexSemi    == lstatus = "run" /\ ci <= Len(chars) /\ Cls(ci) = "SEMI" /\ Advance(ci + 1, "SemiColon", TRUE) /\ UNCHANGED line
 LexString  == lstatus = "run" /\ ci <= Len(chars) /\ Cls(ci) = "QUOTE"
@@ -50,7 +53,7 @@ LexString  == lstatus = "run" /\ ci <= Len(chars) /\ Cls(ci) = "QUOTE"
 LexComment == lstatus = "run" /\ ci <= Len(chars) /\ Cls(ci) = "HASH"
               /\ Advance(Scan(ci + 1, {"NL"}), "Comment", FALSE) /\ UNCHANGED line
 LexWord    == lstatus = "run" /\ ci <= Len(chars) /\ Cls(ci) \in {"DIGIT", "DOT", "MINUS", "ALPHA"}
-              /\ Advance(Scan(ci + 1, {"NL", "WS"}), "Word", TRUE) /\ UNCHANGED line
+              /\ Advance(Scan(ci + 1, {"NL", "WS", "UWS"}), "Word", TRUE) /\ UNCHANGED line
 LexFail    == lstatus = "run" /\ ci <= Len(chars) /\ Cls(ci) = "OTHER"
               /\ lstatus' = "err" /\ UNCHANGED <<chars, ci, bpos, line, toks>>
 LexDone    == lstatus = "run" /\ ci > Len(chars) /\ lstatus' = "ok" /\ UNCHANGED <<chars, ci, bpos, line, toks>>
